@@ -257,10 +257,17 @@ def main(argv=None):
             run.notes.append(f"finding {k['id']} did not reproduce on this run (witness no longer fails)")
     if run.broken and not run.violations:
         # §5.3: a proof obligation or the tie no longer checks -> search the implementation for a failing input
-        for extra in (seed + 1, seed + 2, seed + 3):
+        # other seeds at this tier's scale first, then the thorough scale; the quick tier stops searching after ~5 minutes
+        plan = [('quick', seed + 1), ('quick', seed + 2), ('thorough', seed + 3)] if a.tier == 'quick' else [('thorough', seed + k) for k in (1, 2, 3)]
+        budget = 300 if a.tier == 'quick' else 3600
+        t_search = time.time()
+        for scale, extra in plan:
+            if time.time() - t_search > budget:
+                run.notes.append(f'failing-input search stopped after {int(time.time() - t_search)} s (budget {budget} s)')
+                break
             run.search_seeds.append(extra)
             for s in STREAMS.get(a.prop, []):
-                run.run_stream(s, 'thorough', extra, judge_model=False)
+                run.run_stream(s, scale, extra, judge_model=False)
             if run.violations:
                 break
     return run.finish()
